@@ -43,7 +43,7 @@ func serialBus(id string, seed int64, writer bool) *trace.Scenario {
 	steps := 300
 	long := strings.HasPrefix(id, "serial-long")
 	if long {
-		steps = 110000 // more than 65,536 bytes through the port of one emulator
+		steps = 120000 // more than 65,536 bytes through the port of one emulator
 	}
 	for i := 0; i < steps; i++ {
 		if long && i%2000 == 1999 && m.Serial != nil {
@@ -52,6 +52,9 @@ func serialBus(id string, seed int64, writer bool) *trace.Scenario {
 			m.Serial.Reset()
 		}
 		a := []int{0xff01, 0xff01, 0xff02, 0xff00, 0xff03, 0xff0f, 0xff10 + rng.Intn(0x30), 0xff80 + rng.Intn(0x7f), 0xc000 + rng.Intn(0x100), 0xff40 + rng.Intn(12)}[rng.Intn(10)]
+		if long && rng.Intn(5) > 0 {
+			a = 0xff01 // the long run is mostly SB writes
+		}
 		if a == 0xff46 && rng.Intn(3) > 0 {
 			a = 0xff01 // an OAM DMA is "other I/O" too, but keep it occasional
 		}
